@@ -462,6 +462,15 @@ pub fn run(tier: Tier) -> i32 {
             r##"<svg><g><rect data-k="c" xy="#b|v" wh="2"/><loop count="2" loop-var="i"><rect data-k="a$i" id="a$i" xy="{{$i * 5}} 0" wh="2"/></loop></g><g><rect data-k="b" id="b" xy="#a1|h" wh="2"/></g></svg>"##),
         ("computed-id-progress/expression", r##"<svg><g><rect data-k="b" id="b" xy="#a1|h" wh="2"/></g><g><rect data-k="c" xy="#b|v" wh="2"/><rect data-k="a" id="a{{1}}" xy="5 0" wh="2"/></g></svg>"##,
             r##"<svg><g><rect data-k="c" xy="#b|v" wh="2"/><rect data-k="a" id="a{{1}}" xy="5 0" wh="2"/></g><g><rect data-k="b" id="b" xy="#a1|h" wh="2"/></g></svg>"##),
+        // third review round
+        ("computed-id-progress/alternating-chain", r##"<svg><rect data-k="k" id="k-1" wh="1"/><g><loop count="5" loop-var="i"><rect data-k="a$i" id="a$i" xy="#k{{$i - 1}}|h" wh="2"/></loop></g><g><loop count="5" loop-var="i"><rect data-k="k$i" id="k$i" xy="#a$i|v" wh="2"/></loop></g></svg>"##,
+            r##"<svg><rect data-k="k" id="k-1" wh="1"/><g><loop count="5" loop-var="i"><rect data-k="k$i" id="k$i" xy="#a$i|v" wh="2"/></loop></g><g><loop count="5" loop-var="i"><rect data-k="a$i" id="a$i" xy="#k{{$i - 1}}|h" wh="2"/></loop></g></svg>"##),
+        ("computed-id-in-own-scope/id-expression", r##"<svg><var n="1"/><rect data-k="r" id="r{{$n + #z~w}}" wh="1"/><var n="5"/><rect data-k="z" id="z" wh="1"/><rect data-k="probe" xy="#r2|h" wh="1"/></svg>"##,
+            r##"<svg><rect data-k="z" id="z" wh="1"/><var n="1"/><rect data-k="r" id="r{{$n + #z~w}}" wh="1"/><var n="5"/><rect data-k="probe" xy="#r2|h" wh="1"/></svg>"##),
+        ("deferred-random-partial/reference-before-draw", r##"<svg><rect data-k="a" id="a" wh="{{#z~w + randint(1,100)}}"/><rect data-k="n" xy="0 120" wh="{{randint(1,100)}}"/><rect data-k="z" id="z" xy="200 10" wh="6"/></svg>"##,
+            r##"<svg><rect data-k="z" id="z" xy="200 10" wh="6"/><rect data-k="a" id="a" wh="{{#z~w + randint(1,100)}}"/><rect data-k="n" xy="0 120" wh="{{randint(1,100)}}"/></svg>"##),
+        ("deferred-assignment/var-by-reference", r##"<svg><var w="1"/><var w="{{#b~w}}"/><rect data-k="r" wh="$w"/><rect data-k="b" id="b" xy="20 0" wh="7"/></svg>"##,
+            r##"<svg><rect data-k="b" id="b" xy="20 0" wh="7"/><var w="1"/><var w="{{#b~w}}"/><rect data-k="r" wh="$w"/></svg>"##),
         ("literal-id-control", r##"<svg><g><rect data-k="b" id="b" xy="#a1|h" wh="2"/></g><g><rect data-k="c" xy="#b|v" wh="2"/><rect data-k="a" id="a1" xy="5 0" wh="2"/></g></svg>"##,
             r##"<svg><g><rect data-k="c" xy="#b|v" wh="2"/><rect data-k="a" id="a1" xy="5 0" wh="2"/></g><g><rect data-k="b" id="b" xy="#a1|h" wh="2"/></g></svg>"##),
     ];
